@@ -223,6 +223,37 @@ func ruleRecState(c *Ctx) {
 	}
 	c.atLeast("places taking the address of a record-group field", nAlias, 1)
 
+	// ---- HANDOFF: the scratch slice the main input's CSV splitter fills (csvFields) belongs to the record
+	// that was scanned last; it becomes the current record's fields at the moment that record is taken
+	// (execActions, right after nextLine). Reading it later - lazily, when a field is first needed - hands
+	// over whatever record a getline has scanned since.
+	if _, st := c.structType("interp", "interp"); st != nil && fieldByName(st, "csvFields") != nil {
+		var readers []string
+		var badPos token.Pos
+		for _, fn := range fns {
+			fn := fn
+			allInstrs(fn, func(in ssa.Instruction) {
+				u, ok := in.(*ssa.UnOp)
+				if !ok || u.Op != token.MUL {
+					return
+				}
+				if f, x := fieldOfAddr(u.X); f != nil && f.Name() == "csvFields" && isInterp(x.Type()) {
+					root := fn
+					for root.Parent() != nil {
+						root = root.Parent()
+					}
+					readers = append(readers, root.Name())
+					if root.Name() != "execActions" {
+						badPos = in.Pos()
+					}
+				}
+			})
+		}
+		c.check(badPos == token.NoPos && len(readers) >= 1, "csv-handoff", badPos,
+			"the CSV splitter's scratch fields are taken over only where the main loop takes the record (execActions)",
+			fmt.Sprintf("p.csvFields is read in %v: outside execActions the scratch slice may already hold the fields of a record that a getline scanned afterwards, so $1..$NF come from a neighbouring record while $0 is the current one", readers))
+	}
+
 	// ---- READS: getField / getSpecial write only lazy members
 	lazy := map[string]bool{"fields": true, "fieldsIsTrueStr": true, "numFields": true, "haveFields": true}
 	writes := interpFieldWrites(c)
